@@ -309,30 +309,35 @@ where
 // slice of a static array with symbolic content and CONCRETE length (an owned Vec of symbolic length made the
 // encoder query run > 600 s of symbolic execution).
 pub const OID_SLOTS: usize = 3;
-pub static mut OID_BYTES: [[u8; 4]; OID_SLOTS] = [[0; 4]; OID_SLOTS];
-pub static mut OID_LEN: [usize; OID_SLOTS] = [3; OID_SLOTS];
+pub static mut OID0: [u8; 4] = [0; 4];
+pub static mut OID1: [u8; 4] = [0; 4];
+pub static mut OID2: [u8; 4] = [0; 4];
 pub static mut OID_POS: usize = 0;
 pub static mut OID_FAIL_AT: usize = usize::MAX;
 
+/// Every scripted OID has 3 content octets (concrete length).  The stub is STATELESS on purpose (it only reads
+/// statics that the harness set up beforehand): a stub that advanced a `static mut` position counter made CBMC report
+/// spurious dereference failures in the buffer pool's Vec (minimal reproduction kept in DESIGN.md, section 9).
+/// All OIDs of one request are therefore the same scripted OID; multi-OID order is checked at the PDU level.
 pub fn stub_oid_from_str<'a, 'b>(_value: &'a str) -> Result<SnmpOid<'b>, SnmpError>
 where
     'a: 'a,
     'b: 'b,
 {
     unsafe {
-        let i = OID_POS;
-        OID_POS += 1;
-        if i >= OID_SLOTS || i == OID_FAIL_AT {
+        if OID_FAIL_AT == 0 {
             return Err(SnmpError::InvalidData);
         }
-        let s: &'static [u8] = &OID_BYTES[i];
-        Ok(SnmpOid(Cow::Borrowed(&s[..OID_LEN[i]])))
+        let s: &'static [u8; 4] = &*core::ptr::addr_of!(OID0);
+        Ok(SnmpOid(Cow::Borrowed(&s[..3])))
     }
 }
 
 pub fn script_oids(b: [[u8; 4]; OID_SLOTS]) {
     unsafe {
-        OID_BYTES = b;
+        OID0 = b[0];
+        OID1 = b[1];
+        OID2 = b[2];
         OID_POS = 0;
     }
 }
